@@ -5,3 +5,4 @@ pub mod c20;
 pub mod c17;
 pub mod e3;
 pub mod c08;
+pub mod c07;
